@@ -5,6 +5,7 @@ import JxlModel.Driver.C02
 import JxlModel.Driver.C19
 import JxlModel.Driver.C17
 import JxlModel.Driver.C14
+import JxlModel.Driver.C18
 
 def main (args : List String) : IO UInt32 := do
   match args with
@@ -17,4 +18,5 @@ def main (args : List String) : IO UInt32 := do
   | ["c17"] => Jxl.Driver.C17.main; return 0
   | ["c14"] => Jxl.Driver.C14.main; return 0
   | ["hdrenc"] => Jxl.Driver.C14.mainEnc; return 0
+  | ["c18"] => Jxl.Driver.C18.main; return 0
   | _ => IO.eprintln "usage: jxlmodel <component>"; return 2
